@@ -725,6 +725,20 @@ func IsValidFilter(filter string, forPublish bool) bool {
 		return false
 	}
 
+	for i := 0; i < len(filter); i++ {
+		if filter[i] != '+' && filter[i] != '#' {
+			continue
+		}
+
+		if i > 0 && filter[i-1] != '/' {
+			return false // [MQTT-4.7.1-2] [MQTT-4.7.1-3] wildcards must occupy an entire level
+		}
+
+		if filter[i] == '+' && i < len(filter)-1 && filter[i+1] != '/' {
+			return false // [MQTT-4.7.1-3]
+		}
+	}
+
 	prefix, hasNext := isolateParticle(filter, 0)
 	if !hasNext && strings.EqualFold(prefix, SharePrefix) {
 		return false // [MQTT-4.8.2-1]
@@ -732,8 +746,8 @@ func IsValidFilter(filter string, forPublish bool) bool {
 
 	if hasNext && strings.EqualFold(prefix, SharePrefix) {
 		group, hasNext := isolateParticle(filter, 1)
-		if !hasNext {
-			return false // [MQTT-4.8.2-1]
+		if !hasNext || len(group) == 0 || len(filter) == len(prefix)+len(group)+2 {
+			return false // [MQTT-4.8.2-1] share name and topic filter must both be present
 		}
 
 		if strings.ContainsRune(group, '+') || strings.ContainsRune(group, '#') {
